@@ -208,7 +208,7 @@ def _install_bool_hook():
     jcore.ShapedArray._lvc_hooked = True
 
 
-def fork_paths(fn, args, kwargs=None, max_paths=64):
+def fork_paths(fn, args, kwargs=None, max_paths=64, raises=()):
     """Enumerate all paths of fn(*args) w.r.t. bool(tracer) decisions.
     Returns list of (Traced, dyn, decisions) where the traced program has the branch conditions as extra
     leading outputs: out = (conds_tuple, original_out).  Raises ir.Unsupported if more than max_paths."""
@@ -229,6 +229,9 @@ def fork_paths(fn, args, kwargs=None, max_paths=64):
         _FORK = st
         try:
             tr, dyn = trace(wrapped, args, kwargs)
+        except raises as e:
+            # a path on which the real code raises (e.g. a failed `assert` on traced values): recorded as (None, exception, decisions)
+            tr, dyn = None, e
         finally:
             _FORK = None
         decisions = [d for _, d in st.taken]
